@@ -164,6 +164,9 @@ type App struct {
 	Covered func(series int, t int64) bool
 	// OOOTag, if set, tags cells stored through the out-of-order path by this commit (known finding).
 	OOOTag string
+	// ReorderSeries: series for which a float staleness marker is followed by another sample in this transaction
+	// (known finding stale-marker-commit-reorder, only exercised by C02 finding runs).
+	ReorderSeries []int
 }
 
 // Decision is the model's verdict on one sample.
@@ -200,13 +203,10 @@ func Judge(w Window, last *Sample, v Sample, rejectOOO bool) Decision {
 				}
 				return Decision{Out: Duplicate, Cell: "dup-different-" + last.Kind.String() + "-" + v.Kind.String()}
 			case last.IsStale() && v.IsStale():
-				if last.Kind == v.Kind && v.Kind == KFloat {
-					return Decision{Out: OK, NoOp: true, Cell: "dup-identical-stale"}
-				}
-				// Staleness markers change kind when stored (a float marker on a histogram series becomes a
-				// histogram marker); whether re-appending the marker counts as bit-identical is not pinned
-				// by the statement.
-				return Decision{Out: OK, NoOp: true, Either: true, Alt: Duplicate, Cell: "dup-stale-kindchange"}
+				// Staleness markers change kind when stored (a float marker becomes a histogram marker when the
+				// series' newest sample, or an earlier sample of the same appender, is a histogram); whether
+				// re-appending the float marker then counts as bit-identical is not pinned by the statement.
+				return Decision{Out: OK, NoOp: true, Either: true, Alt: Duplicate, Cell: "dup-stale-marker"}
 			default:
 				return Decision{Out: Duplicate, Cell: "dup-stale-vs-value"}
 			}
@@ -339,6 +339,33 @@ func (m *Model) Commit(a *App) CommitEffect {
 			}
 		}
 	}
+	// Known finding stale-marker-commit-reorder: the converted marker is committed after the later samples of
+	// the batch; the marker may be missing, and a later sample with the marker's timestamp may be stored instead.
+	for _, si := range a.ReorderSeries {
+		s := m.Series[si]
+		// every sample of the series in this transaction may have been stored, dropped or replaced differently
+		for _, p := range a.Pending {
+			if p.Series != si {
+				continue
+			}
+			c := s.Cells[p.S.T]
+			if c == nil {
+				c = &Cell{Cands: []Sample{p.S}, Deleted: true}
+				s.Cells[p.S.T] = c
+			}
+			c.KF = "stale-marker-commit-reorder"
+			c.KFCandTag = "stale-marker-commit-reorder"
+			for _, q := range a.Pending {
+				if q.Series == si && q.S.T == p.S.T && !c.Has(q.S) {
+					c.KFCands = append(c.KFCands, q.S)
+					if q.S.IsStale() { // the marker may be stored with the histogram kind
+						c.KFCands = append(c.KFCands, Sample{T: q.S.T, Kind: KHist, H: &histogram.Histogram{Sum: q.S.F}})
+					}
+				}
+			}
+		}
+	}
+	a.ReorderSeries = nil
 	a.Pending = nil
 	return eff
 }
